@@ -188,10 +188,40 @@ def r2(tree, rep):
               what="writers: %s" % [w.brief() for w in own + foreign])
 
 
+def r3(tree, rep):
+    """a ping (and the pong that answers the peer's ping) goes onto the link whenever there is a connection - nothing else may
+    hold it back (a dropped ping is recorded and timed all the same: two of them replace a healthy connection)"""
+    OUT = "src/wormhole/_dilation/outbound.py"
+    fn = tree.func(OUT, "Outbound", "send_if_connected")
+    g = build(fn, split=True)
+    connected = truthy_atom(lambda e: is_self_attr(e, "_connection"))
+    snd = g.call_nodes(lambda c: dotted(c.func) == "self._connection.send_record")
+    ce = g.cond_edges(connected, True)
+    ok = len(snd) == 1 and bool(ce) and not g.only_when(snd, connected, True) \
+        and all(g.exit not in g.reach([y], avoid_nodes=set(snd), explicit_only=True) for (x, y, l) in ce)
+    other = [s for n, s in g.stmt.items() if isinstance(s, tuple) and s[0] == "COND" and connected(s[1]) is None] + \
+            [s for n, s in g.stmt.items() if isinstance(s, (ast.If, ast.While)) and not g._is_compound_test(s.test) and connected(s.test) is None
+             and not (isinstance(s.test, ast.UnaryOp) and connected(s.test.operand) is not None)]
+    rep.check("C16.R3", "Outbound.send_if_connected writes the record exactly when a connection exists (no other condition)", ok and not other,
+              site(fn, OUT), key="C16.R3:send_if_connected",
+              what="pings/pongs can be dropped although a connection exists: the leader counts the silence and replaces a healthy connection")
+    for meth, rec in (("send_ping", "Ping"), ("send_pong", "Pong")):
+        f = tree.func(MGR, "Manager", meth)
+        gm = build(f)
+        sn = gm.call_nodes(lambda c, rec=rec: dotted(c.func) == "self._outbound.send_if_connected" and c.args and isinstance(c.args[0], ast.Call)
+                           and dotted(c.args[0].func) == rec)
+        rep.check("C16.R3", "Manager.%s hands a %s to send_if_connected on every path" % (meth, rec), len(sn) == 1 and gm.must_pass(sn, explicit_only=True),
+                  site(f, MGR), key="C16.R3:%s" % meth)
+    hp = tree.func(MGR, "Manager", "handle_ping")
+    rep.check("C16.R3", "every peer ping is answered with a pong", len(calls_named(hp, "self.send_pong")) == 1 and build(hp).must_pass(
+        build(hp).call_nodes(lambda c: dotted(c.func) == "self.send_pong"), explicit_only=True), site(hp, MGR), key="C16.R3:handle_ping")
+
+
 def run(tree, rep, tier):
     prog = Program(tree)
     r1(prog, rep)
     r2(tree, rep)
+    r3(tree, rep)
 
 
 MUTANTS = [
